@@ -86,7 +86,7 @@ func genC15Plan(r *zsim.Rng) *sysPlan {
 		p.Args = append(p.Args, "--info", "right")
 	case 4:
 		if r.Bool() {
-			p.Args = append(p.Args, "--info", "inline-right")
+			p.Args = append(p.Args, "--info", pick(r, "inline-right", "inline-right", "inline-right:< "))
 			if r.Bool() {
 				// many lines: the counters get several columns shorter when a query cuts the list down
 				p.Lines.N = r.Range(1000, 2500)
@@ -241,6 +241,10 @@ func c15Settle(r *sysRun, busy bool) {
 	scr := r.tty.Screen()
 	layout := argValue(plan.Args, "--layout")
 	info := argValue(plan.Args, "--info")
+	infoPrefix := "" // --info=inline-right:PREFIX: printed in front of the counters
+	if strings.HasPrefix(info, "inline-right:") {
+		info, infoPrefix = "inline-right", strings.TrimSpace(strings.TrimPrefix(info, "inline-right:"))
+	}
 	inlineInfo := info == "inline" || info == "inline-right" // the counters share the prompt row
 	unicodeOn := !hasArg(plan.Args, "--no-unicode")
 	pointer, marker, ellipsis := "▌", "┃", "··"
@@ -335,10 +339,13 @@ func c15Settle(r *sysRun, busy bool) {
 				rest = rest[i+len(st.Query):]
 			}
 			m = infoRe.FindStringSubmatch(rest)
-			if info == "inline-right" && m != nil && st.Query != "" && t.xoffset == 0 && runeWidthOf("> "+st.Query)+20 < cols {
-				// right-aligned counters: nothing but blanks between the query and them (no left-over of an
-				// earlier, longer text)
-				if loc := infoRe.FindStringIndex(rest); loc != nil && strings.TrimSpace(rest[:loc[0]]) != "" {
+			if info == "inline-right" && st.Query == "" {
+				rest = strings.TrimPrefix(rest, "> ")
+			}
+			if info == "inline-right" && m != nil && t.xoffset == 0 && runeWidthOf("> "+st.Query)+24 < cols {
+				// right-aligned counters: nothing but blanks - and the prefix, once - between the query and them
+				// (no left-over of an earlier, longer text)
+				if loc := infoRe.FindStringIndex(rest); loc != nil && strings.TrimSpace(rest[:loc[0]]) != infoPrefix {
 					c.violate("c15.info", "prompt row %q: %q stands between the query and the counters (%s)%s", scr[infoRow], strings.TrimSpace(rest[:loc[0]]), where, dump())
 					return
 				}
